@@ -174,6 +174,19 @@ class StdVector:
         self.items = list(items or [])
 
 
+class StdMap:
+    """std::map with concrete keys (ordered by key); values default-constructed on first access"""
+
+    def __init__(self, default):
+        self.d = {}
+        self.default = default
+
+
+class MapIter:
+    def __init__(self, m, keys, i):
+        self.m, self.keys, self.i = m, keys, i
+
+
 class CReturn(Exception):
     def __init__(self, v):
         self.v = v
@@ -998,9 +1011,18 @@ class CInterp:
                 return FV([args[0]] * 4)
             if not args:
                 return FV([None] * 4)
+        if "iterator" in qt and len(args) == 1 and isinstance(args[0], (MapIter, VecIter)):
+            a = args[0]
+            return MapIter(a.m, a.keys, a.i) if isinstance(a, MapIter) else VecIter(a.vec, a.i)
+        if qt.replace("const ", "").strip().startswith(("std::map<", "map<")):
+            if not args:
+                return StdMap((lambda: StdVector()) if "vector" in qt else (lambda: 0))
+            raise Unsupported(f"constructor of {qt} with arguments")
         if "vector" in qt:
             if not args:
                 return StdVector()
+            if len(args) == 2 and isinstance(args[0], int) and isinstance(args[1], StdVector):
+                return StdVector([StdVector(list(args[1].items)) for _ in range(args[0])])
             if len(args) == 1 and isinstance(args[0], StdVector):
                 return StdVector(args[0].items)
             if len(args) == 1 and isinstance(args[0], VecRegion):
@@ -1042,7 +1064,26 @@ class CInterp:
                 return LRef(lambda: a0.items[i], lambda v: a0.items.__setitem__(i, v))
             if isinstance(a0, VecRegion):
                 return self.mem_ref(Ptr(a0.region, 0), idx)
+            if isinstance(a0, StdMap):
+                k = idx if isinstance(idx, int) else core.current().concrete_int(term(idx))
+                if k is None:
+                    raise Unsupported("symbolic std::map key")
+                if k not in a0.d:
+                    a0.d[k] = a0.default()
+                return LRef(lambda: a0.d[k], lambda v: a0.d.__setitem__(k, v))
             raise Unsupported("operator[] on " + type(a0).__name__)
+        if isinstance(a0, MapIter):
+            if op in ("operator->", "operator*"):
+                k = a0.keys[a0.i]
+                return StructObj("pair", first=k, second=a0.m.d[k])
+            if op == "operator++":
+                new = MapIter(a0.m, a0.keys, a0.i + 1)
+                args[0].set(new)
+                return a0 if len(args) > 1 else new  # postfix returns the old iterator
+            if op in ("operator!=", "operator=="):
+                b = self.rv(args[1])
+                same = a0.m is b.m and a0.i == b.i
+                return same if op == "operator==" else not same
         if isinstance(a0, VecIter):
             if op == "operator*":
                 return a0.vec.items[a0.i]
@@ -1104,6 +1145,14 @@ class CInterp:
                 for k in range(4):
                     p.region.write(p.off + k, obj.v[k])
                 return None
+        if isinstance(obj, StdMap):
+            keys = sorted(obj.d)
+            if name in ("begin", "cbegin"):
+                return MapIter(obj, keys, 0)
+            if name in ("end", "cend"):
+                return MapIter(obj, keys, len(keys))
+            if name == "size":
+                return len(keys)
         if isinstance(obj, StdVector):
             if name == "size":
                 return len(obj.items)
